@@ -116,12 +116,15 @@ class World:
         return {"key": key, "imp": imp}
 
     def read_db(self):
+        """the rows stored in SQLite right now, seen through an INDEPENDENT freshly opened Butler (the working
+        Butler's in-memory dimension-record cache must not be what the expansions are compared with)"""
+        fresh = fixture.open_repo(self.root, writeable=False)
         out = {}
         for e in self.universe.elements:
             if e.name in self.universe.skypix_dimensions.names:
                 continue
             rows = []
-            for r in self.reg.queryDimensionRecords(e.name):
+            for r in fresh.registry.queryDimensionRecords(e.name):
                 rows.append(self.rec_obs(e, r))
             rows.sort(key=lambda x: json.dumps(x))
             out[e.name] = rows
@@ -288,7 +291,30 @@ def op_putget(w: World, op):
     return out
 
 
-OPS = {"build": op_build, "pair": op_pair, "get": op_get, "eqmap": op_eqmap, "rollback": op_rollback, "putget": op_putget}
+def op_mutate(w: World, op):
+    """change stored dimension records through the working Butler AFTER its caches were loaded, then read the rows back"""
+    rec = {k: dec(v) for k, v in op["record"].items()}
+    out = {}
+    try:
+        if op["how"] == "sync":
+            r = w.reg.syncDimensionData(op["element"], rec, update=bool(op.get("update")))
+            out["result"] = "updated" if isinstance(r, dict) else ("inserted" if r is True else "noop")
+            if isinstance(r, dict):
+                out["old"] = {k: enc(v) for k, v in r.items()}
+        elif op["how"] == "insert_replace":
+            w.reg.insertDimensionData(op["element"], rec, replace=True)
+            out["result"] = "replaced"
+        else:
+            raise ValueError(op["how"])
+    except Exception as e:  # noqa: BLE001
+        out["err"] = ecls(e)
+        out["msg"] = str(e)[:160]
+    w.cache.clear()      # data IDs built before the change are rebuilt on demand
+    out["db"] = w.read_db()
+    return out
+
+
+OPS = {"mutate": op_mutate, "build": op_build, "pair": op_pair, "get": op_get, "eqmap": op_eqmap, "rollback": op_rollback, "putget": op_putget}
 
 
 def run_batch(payload):
